@@ -18,7 +18,10 @@ def pool():
     global _pool
     with _pool_lock:
         if _pool is None:
-            _pool = cf.ThreadPoolExecutor(max_workers=max(2, P.NCPU - 1))
+            # shards run in worker PROCESSES: joining TLC's verdicts with the trace (JSON parsing, hashing) is pure Python and
+            # would otherwise serialise on the interpreter lock (the thorough tier validates tens of millions of lines)
+            import multiprocessing
+            _pool = cf.ProcessPoolExecutor(max_workers=max(2, P.NCPU - 1), mp_context=multiprocessing.get_context('spawn'))
         return _pool
 
 
